@@ -51,6 +51,36 @@ theorem cancelledCount_of_silent {sv : Nat} {os : List Out} (h : ∀ o ∈ os, s
   subst hc
   simp [speaks] at this
 
+theorem isApp_of_speaks {sv : Nat} {o : Out} (h : speaks sv o = true) : isApp o = true := by
+  cases o <;> simp [speaks] at h <;> rfl
+
+/-- what the message layer puts out does not matter to the Observe numbers and callback counts -/
+theorem obsSeq_app (sv : Nat) (os : List Out) : obsSeq sv (app os) = obsSeq sv os := by
+  induction os with
+  | nil => rfl
+  | cons o os ih =>
+    have hcons : obsSeq sv (o :: os) = obsSeq sv [o] ++ obsSeq sv os := obsSeq_append sv [o] os
+    have happ : app (o :: os) = app [o] ++ app os := app_append [o] os
+    rw [hcons, happ, obsSeq_append, ih]
+    congr 1
+    cases o <;> rfl
+
+theorem cancelledCount_app (sv : Nat) (os : List Out) : cancelledCount sv (app os) = cancelledCount sv os := by
+  induction os with
+  | nil => rfl
+  | cons o os ih =>
+    have hcons : cancelledCount sv (o :: os) = cancelledCount sv [o] + cancelledCount sv os :=
+      cancelledCount_append sv [o] os
+    have happ : app (o :: os) = app [o] ++ app os := app_append [o] os
+    rw [hcons, happ, cancelledCount_append, ih]
+    congr 1
+    cases o <;> rfl
+
+theorem delivered_nil_of_dsrvs {os : List MsgLayer.Out} (h : dsrvs os = []) : delivered os = [] := by
+  have := delivered_srv os
+  rw [h] at this
+  exact List.map_eq_nil_iff.mp this
+
 theorem net_silent (sv : Nat) (os : List MsgLayer.Out) : ∀ o ∈ os.map Out.net, speaks sv o = false := by
   intro o ho
   obtain ⟨x, _, rfl⟩ := List.mem_map.mp ho
